@@ -12,7 +12,7 @@ TRUSTED = [
     "register map read off codegen.rs (rbx = context, rbp = tape pointer, rax/rcx scratch, temporaries 0..10 in r12-r15,rsi,rdi,rdx,r8-r11, >= 11 at [rsp+8t]) and Memory/Context field offsets 0/8/16/24",
     "bytecode step semantics (same as units u5/u9); temporaries are compared modulo 2^width",
     "instruction operands are ENUMERATED (register class x immediate class x offset class x live mask), not symbolic: a symbolic immediate makes the emitted length symbolic and Kani does not finish",
-    "runtime calls are modelled by the SysV contract: rsp 16-byte aligned, first argument = context, caller-saved registers (rax rcx rdx rsi rdi r8-r11) hold arbitrary values afterwards, callee-saved ones are preserved; the checked Mov probe/extend sequence is NOT modelled",
+    "runtime calls are modelled by the SysV contract: rsp 16-byte aligned, first argument = context, caller-saved registers (rax rcx rdx rsi rdi r8-r11) hold arbitrary values afterwards, callee-saved ones are preserved; hpbf_context_extend leaves arbitrary (buffer, size, offset) in the context (what it guarantees about them is unit u2's contract)",
 ]
 
 HERE = os.path.dirname(os.path.abspath(__file__))
@@ -150,6 +150,9 @@ IOCALLS = [("u6_%s_%s_%s_l%x" % ("inp" if inp else "out", w, ("m%d" % -i) if i <
                                      ("u32", False, 16, 0x7f0), ("u64", False, 0, 0x550),
                                      ("u8", True, 0, 0x0), ("u8", True, -1, 0x7ff), ("u64", True, 16, 0x20), ("u16", True, 2, 0x3f0),
                                      ("u32", True, -16, 0x7f0), ("u64", True, 0, 0x2a0))]
+MOVSAFE = [("u6_mov_safe_%s_%s_l%x" % (w, ("m%d" % -sh) if sh < 0 else str(sh), live), w, sh, mn, mx, live)
+           for (w, sh, mn, mx, live) in (("u8", 1, 0, 0, 0x0), ("u8", -1, -1, 2, 0x7ff), ("u64", 3, -2, 5, 0x50), ("u64", -4, -3, 0, 0x2a0),
+                                         ("u16", 2, -1, 1, 0x10), ("u32", -1, -2, 2, 0x7f0), ("u16", -300, -1, 1, 0x3f0), ("u32", 1000, 0, 3, 0x0))]
 MOVS = [("u6_mov_unsafe_%s_%s" % (w, ("m%d" % -s) if s < 0 else str(s)), w, s) for w, s in (("u8", 1), ("u8", -1), ("u64", 3), ("u64", -200), ("u16", 100), ("u32", -2))]
 
 
@@ -165,6 +168,9 @@ def _cases(tier, seed):
             w, n.upper(), n, "true" if on_zero else "false", cond, "true" if lim else "false")))
     for n, w, sh in MOVS:
         cs.append((n, w, "Instr::Mov(%d)" % sh, 0xffff, 2, False, False, "-1", "1", "check_mov_unsafe::<%s, _>(&CODE_%s, run_%s, %d)" % (w, n.upper(), n, sh)))
+    for n, w, sh, mn, mx, live in MOVSAFE:
+        cs.append((n, w, "Instr::Mov(%d)" % sh, live, 13, False, True, str(mn), str(mx),
+                   "check_mov_safe::<%s, _>(&CODE_%s, run_%s, %d, %d, %d, 0x%x)" % (w, n.upper(), n, sh, mn, mx, live)))
     for n, w, inp, idx, live in IOCALLS:
         cs.append((n, w, "Instr::%s(%d)" % ("Inp" if inp else "Out", idx), live, 13, False, True, "-WCELLS", "WCELLS",
                    "check_io_call::<%s, _>(&CODE_%s, run_%s, %s, %d, 0x%x)" % (w, n.upper(), n, "true" if inp else "false", idx, live)))
@@ -328,6 +334,12 @@ def harnesses(tier, seed):
             hs.append({"name": MOD + n + "_emits", "function": "basejit::CodeGen::{emit_program, fix_relocations} + asm.rs emitters (symbolic execution of the real emitter)",
                        "clause": "the real emitter appends exactly the bytes the native stage recorded for this instance",
                        "properties": ["C03"], "bounded_by": "one concrete instruction", "complete_over": "-", "timeout": 1500})
+    for n, w, sh, mn, mx, live in MOVSAFE:
+        hs.append({"name": MOD + n, "function": "basejit::CodeGen::{emit_program (Mov arm, safe == true), emit_pre_call, emit_post_call} <%s> shift=%d window=[%d,%d] live=0x%x" % (w, sh, mn, mx, live),
+                   "clause": "pointer advances by shift cells; far edge of the window tested against the context's current bounds; inside: nothing else; outside: offset := probe index, hpbf_context_extend(cxt, 0, 1) called with live temporaries saved and rsp aligned, pointer re-based as buffer' + (offset' - probe) * cell size; no tape byte written",
+                   "properties": ["C06", "C03"], "bounded_by": "shift / window / live mask enumerated",
+                   "complete_over": "all machine states, all tape geometries (buffer, size, pointer), all (buffer', size', offset') the callee may leave", "timeout": t,
+                   "allow_unreachable": ["cg.code.len() == expect.len()", "cg.code[i] == expect[i]"]})
     for n, w, inp, idx, live in IOCALLS:
         hs.append({"name": MOD + n, "function": "basejit::CodeGen::{emit_program (%s arm), emit_pre_call, emit_post_call} <%s> live=0x%x" % ("Inp" if inp else "Out", w, live),
                    "clause": "live caller-saved temporaries pushed/popped symmetrically and preserved across the runtime call; rsp 16-byte aligned at the call and restored; shim receives (context, cell value | cell address); jumps to the termination relocation iff the shim reports failure, else falls through; the code writes no tape byte",
